@@ -44,6 +44,10 @@ structure Res (α : Type) where
   q    : α
   exit : Exit
   st   : St α
+  /-- observation only (not a C++ variable that survives): `‖d‖²` of the direction of the last
+      iteration, the `a` of `get_boundaries_intersections`; the monitor uses it to recognise runs in
+      which the curvature test fired on underflowed quantities. -/
+  dsq  : α
 
 section
 variable {α : Type} [Add α] [Sub α] [Mul α] [Div α] [Neg α] [LT α] [LE α] [DecidableLT α]
@@ -66,21 +70,22 @@ def cgStep (cs : α → α → α) (B : Vec α → Vec α) (g : Vec α) (Δ tol 
     let qa := cgEval B g pa
     let qb := cgEval B g pb
     let ws : St α := { st with r := pa, d := pb }    -- `auto &pa = r; auto &pb = d;`
-    if cgPickA qa qb then .inl ⟨pa, qa, .negCurvA, ws⟩ else .inl ⟨pb, qb, .negCurvB, ws⟩
+    if cgPickA qa qb then .inl ⟨pa, qa, .negCurvA, ws, sqNorm st.d⟩
+    else .inl ⟨pb, qb, .negCurvB, ws, sqNorm st.d⟩
   else
     let alpha := cgAlpha st.rsq c.2
     if cgAlphaBad alpha then
-      .inl ⟨st.z.map (fun _ => nanVal), nanVal, .alphaNaN, st⟩
+      .inl ⟨st.z.map (fun _ => nanVal), nanVal, .alphaNaN, st, sqNorm st.d⟩
     else
       let s := cgTrial st.z alpha st.d
       if cgOverLong s Δ then
         let t  := boundaryIntersections cs st.z st.d Δ
         let s' := cgBoundary st.z t.1 t.2 st.d
-        .inl ⟨s', cgEval B g s', .overLong, st⟩
+        .inl ⟨s', cgEval B g s', .overLong, st, sqNorm st.d⟩
       else
         let rr := cgResidual st.r alpha c.1            -- (r, r_next_sq, r_next)
         if cgInteriorExit rr.2.2 tol st.i maxIter then
-          .inl ⟨s, cgEval B g s, .interior, { st with r := rr.1 }⟩
+          .inl ⟨s, cgEval B g s, .interior, { st with r := rr.1 }, sqNorm st.d⟩
         else
           let nx := cgNext rr.2.1 st.rsq st.d rr.1 s st.z st.i   -- (β, r_sq, d, z, i)
           .inr ⟨nx.2.2.2.1, rr.1, nx.2.2.1, nx.2.1, nx.2.2.2.2⟩
@@ -88,7 +93,7 @@ def cgStep (cs : α → α → α) (B : Vec α → Vec α) (g : Vec α) (Δ tol 
 /-- `while (true)` with a recursion budget. -/
 def cgLoop (cs : α → α → α) (B : Vec α → Vec α) (g : Vec α) (Δ tol : α) (maxIter : Int) :
     Nat → St α → Res α
-  | 0, st => ⟨st.z, 0, .fuel, st⟩
+  | 0, st => ⟨st.z, 0, .fuel, st, 0⟩
   | f + 1, st =>
     match cgStep cs B g Δ tol maxIter st with
     | .inl res => res
